@@ -99,6 +99,15 @@ def run(rep: Report, ctx: Any) -> str:
                       "rewriting option in model_config / class Config / Field(...) / StringConstraints(...) / constr(...) (number-to-string "
                       "coercion, stripping, case folding, aliases), no validator function or method that can replace a value - and every "
                       "field is declared with the type of the Config field it feeds (None apart)")
+    rep.rule("R16.10", "class_overrides is keyed by the generated class name (the README: look the names up in the generated models folder): every "
+                       "consultation of the table in Class.from_string (private helpers inlined, executed symbolically: `.get(k, ...)`, `[k]`, "
+                       "`k in`, `k == <one of its keys>`) uses as k the result of `ClassName(<computed from the string parameter>, ...)` - the name "
+                       "as it is minted - not the document's spelling of it nor anything computed from the minted name")
+    rep.rule("R16.11", "content_type_overrides changes how a body is encoded, not what it is announced as: in every template (macros included) "
+                       "that writes a body's content_type, what is written is `<body>.content_type` itself, and whether it is written does not "
+                       "depend on a test of `<body>.body_type` (the classification the override table changes) - truth table over the tests that "
+                       "guard the writes: for every outcome of the other tests, the outcomes of the body_type tests do not decide whether a "
+                       "Content-Type is written")
     cfgc = ix.cls("Config")
     cff = ix.cls("ConfigFile")
     fs = cfgc.methods.get("from_sources")
@@ -200,6 +209,8 @@ def run(rep: Report, ctx: Any) -> str:
     rep.floor("name_constructor_sites", n_pi, 12)
     _r163_media_types(rep, ix)
     _r166_override_key(rep, ix, cfgc)
+    _r1610_class_override_key(rep, ix, cfgc)
+    _r1611_announced_as_itself(rep, ctx.jinja)
     _r167_switched_classes(rep, ix, ctx.jinja)
     _r168_title_names(rep, ix)
     _r169_file_model(rep, ix, cfgc, cff)
@@ -718,6 +729,140 @@ def _r166_override_key(rep: Report, ix: Any, cfgc: Any) -> None:
               f"content_type_overrides is consulted with {wrong[:3]} instead of the media type as the document spells it: an override whose key "
               "differs from that computed form is never found, and the media type is classified by its own name", where(f, f.node),
               lhs=wrong or key_param, rhs=f"<config>.{_OVERRIDES} looked up by `{key_param}` itself")
+
+
+# ---- R16.10: the key the class override table is consulted with -------------------------------------------------------------------------
+
+def _r1610_class_override_key(rep: Report, ix: Any, cfgc: Any) -> None:
+    """`class_overrides` maps the name of a generated class - as the user finds it in the generated models folder - to the names to use
+    instead.  The table therefore has to be consulted with the class name as it is minted (`ClassName(...)` of the string the class is
+    made from): the document's own spelling (`pet_category`, `pet-category`) finds other entries than the documented ones, and so does
+    anything computed from the minted name.  Decided on values: Class.from_string is executed symbolically with its private helpers
+    inlined, so the key of each lookup is an expression of its parameters whatever locals it travels through."""
+    table = "class_overrides"
+    f = ix.func("parser.properties.schemas.Class.from_string")
+    rep.require(f, "Class.from_string")
+    others = [p.arg for p in f.params if not (p.annotation is not None and cfgc.name in norm(p.annotation))]
+    rep.require(len(others) == 1, f"the string parameter of Class.from_string (the one parameter that is not annotated as {cfgc.name})")
+    src = others[0]
+
+    def is_table(x: ast.AST) -> bool:
+        return isinstance(x, ast.Attribute) and x.attr == table
+
+    sx = SymExec(ix, watch=lambda c: True, record=True)
+    sx.run(f)
+    _expand_helper_calls(sx)
+    exprs: list[ast.AST] = list(sx.recorded or [])
+    for conds, call, _ in sx.hits:
+        exprs += [e for e, _ in conds] + [call]
+    for st, rv in sx.exits:
+        exprs += [e for e, _ in st.conds] + [rv]
+    found: dict[str, tuple[ast.AST, ast.AST]] = {}
+    for e in exprs:
+        for k, at in _table_lookups(e, is_table):
+            found.setdefault(f"{norm(k)} @ {norm(at)}", (k, at))
+    rep.floor("class_override_lookups", len(found), 1)
+
+    def minted(k: ast.AST) -> bool:
+        if not (isinstance(k, ast.Call) and _last(k) == "ClassName"):
+            return False
+        named = k.args[0] if k.args else {kw.arg: kw.value for kw in k.keywords}.get("value")
+        return named is not None and not any(isinstance(a, ast.Starred) for a in k.args) and src in _free_names(named)
+
+    wrong = sorted({norm(k)[:80] for k, _ in found.values() if not minted(k)})
+    rep.check(not wrong, "R16.10", f"{short(f)}::overrides-keyed-by-the-generated-class-name",
+              f"class_overrides is consulted with {wrong[:3]} instead of the class name as it is generated (ClassName(...) of `{src}`): an override "
+              "keyed, as documented, by the name found in the generated models is not applied to a schema whose spelling differs from its class name",
+              where(f, f.node), lhs=wrong or "ClassName(...)", rhs=f"<config>.{table} looked up by ClassName(<from {src}>, <prefix>)")
+
+
+# ---- R16.11: a body is announced as the media type the document declares ------------------------------------------------------------------
+
+def _r1611_announced_as_itself(rep: Report, jx: Any) -> None:
+    """content_type_overrides changes the classification of a media type (Body.body_type: how the body is encoded); the media type it is
+    sent as stays the document's (Body.content_type).  In the templates this holds when (1) what is written from a body's content_type is
+    that attribute itself and (2) whether it is written is not decided by a test of the classification: a write under `body_type == X`
+    (or skipped under it) makes the override change the Content-Type on the wire.  (2) is a truth table over the tests guarding the writes
+    of one scope (template body / macro): nested or chained tests, either branch order, a dispatch on body_type that writes the
+    Content-Type in every branch all leave the answer independent of the body_type tests."""
+    from .. import tplq
+
+    import re
+
+    from ..jinja_interp import expr_text
+
+    def reads(n: Any, attr: str) -> bool:
+        """the expression reads `<x>.attr` - itself or through a template-local variable (which reads as its definition, jinja_canon)"""
+        return any(isinstance(x, jnodes.Getattr) and x.attr == attr for x in [n, *n.find_all(jnodes.Getattr)]) or \
+            re.search(rf"\.{attr}\b", expr_text(n)) is not None
+
+    def is_attr(n: Any, attr: str) -> bool:
+        """`<x>.attr` for a plain x (names, attributes, items), directly or as the definition of a template-local variable"""
+        if isinstance(n, jnodes.Getattr) and n.attr == attr:
+            return not any(isinstance(x, (jnodes.Call, jnodes.Filter, jnodes.CondExpr, jnodes.BinExpr, jnodes.Concat)) for x in n.node.find_all(jnodes.Node))
+        return isinstance(n, jnodes.Name) and re.fullmatch(rf"\(?[\w.\[\]*()]+\.{attr}\)?", n.name) is not None
+
+    n_writes = 0
+    for ti in jx.templates.values():
+        scopes = [("<template>", ti.tree.body)] + [(m.name, m.body) for m in ti.tree.find_all(jnodes.Macro)]
+        exprs = {sname: [fr for fr in tplq.frags(body) if fr.kind == "expr"] for sname, body in scopes}
+        # a call of a macro of the template that writes a content_type is a write where it is called
+        writers: set[str] = set()
+        while True:
+            more = {sname for sname, frs in exprs.items() if sname != "<template>" and sname not in writers and any(
+                reads(fr.node, "content_type") or _calls_macro(fr.node, writers) for fr in frs)}
+            if not more:
+                break
+            writers |= more
+        for sname, body in scopes:
+            direct = [fr for fr in exprs[sname] if reads(fr.node, "content_type")]
+            writes = direct + [fr for fr in exprs[sname] if fr not in direct and _calls_macro(fr.node, writers)]
+            if not writes:
+                continue
+            n_writes += len(direct)
+            key = f"{ti.name}::{sname}" if sname != "<template>" else ti.name
+            computed = [fr for fr in direct if not is_attr(fr.node, "content_type")]
+            rep.check(not computed, "R16.11", f"{key}::writes-the-declared-content-type",
+                      "what is written as a body's media type is computed from its content_type instead of being it: the body is not announced as the "
+                      "document declares it", where=f"{PKG}/templates/{ti.name}:{computed[0].line if computed else writes[0].line}",
+                      lhs=[fr.text[:80] for fr in computed[:3]] or "<body>.content_type", rhs="{{ <body>.content_type }}")
+            names: list[str] = []
+            tests: dict[str, Any] = {}
+            for fr in writes:
+                for gn in fr.guard_nodes:
+                    for a, node in _tpl_atoms(gn):
+                        if a not in names:
+                            names.append(a)
+                            tests[a] = node
+            cls_atoms = [a for a in names if reads(tests[a], "body_type")]
+            rest = [a for a in names if a not in cls_atoms]
+            deciding: list[dict[str, bool]] = []
+            if cls_atoms and len(names) <= 14:
+                for env in tplq.assignments(rest):
+                    outcomes = {any(tplq.guard_holds(fr, {**env, **cenv}) for fr in writes) for cenv in tplq.assignments(cls_atoms)}
+                    if len(outcomes) > 1:
+                        deciding.append(env)
+            elif cls_atoms:
+                deciding.append({})
+            rep.check(not deciding, "R16.11", f"{key}::content-type-written-whatever-the-classification",
+                      f"whether the body's Content-Type is written depends on {cls_atoms[:2]}: a media type that content_type_overrides maps to "
+                      "another one is then announced (or not) by what it is mapped to, not as itself", where=f"{PKG}/templates/{ti.name}:{writes[0].line}",
+                      lhs=cls_atoms, rhs="tests of <body>.content_type / of the number of bodies only")
+    rep.floor("content_type_writes", n_writes, 2)
+
+
+def _calls_macro(n: Any, names: set[str]) -> bool:
+    return bool(names) and any(isinstance(c.node, jnodes.Name) and c.node.name in names for c in [n, *n.find_all(jnodes.Call)] if isinstance(c, jnodes.Call))
+
+
+def _tpl_atoms(test: Any) -> list[tuple[str, Any]]:
+    """(text, node) of the atoms of a template test, as tplq.atoms splits it"""
+    from ..jinja_interp import expr_text
+    if isinstance(test, (jnodes.And, jnodes.Or)):
+        return _tpl_atoms(test.left) + _tpl_atoms(test.right)
+    if isinstance(test, jnodes.Not):
+        return _tpl_atoms(test.node)
+    return [(expr_text(test), test)]
 
 
 # ---- R16.7: the classes an option switches between ----------------------------------------------------------------------------------
